@@ -6,6 +6,7 @@ package main
 // configurations), so that the same model run predicts both.
 
 import (
+	"bufio"
 	"bytes"
 	"fmt"
 	"io"
@@ -81,6 +82,75 @@ func (e *e2e) scrape() (map[string]*dto.MetricFamily, int, string, error) {
 	return mfs, 200, string(body), nil
 }
 
+// negotiation: what the endpoint answers to a scraper that asks for another exposition format.  The tie covers the text
+// format 0.0.4 (parsed above) and its protobuf rendering (must decode to the same families); OpenMetrics is not served by
+// the unchanged handler - if it is, the body must at least keep one TYPE / HELP per family and one line per series.
+// Returns: answered in OpenMetrics?, duplicate TYPE/HELP/series lines in it, answered in protobuf?, protobuf families equal to text ones?
+func (e *e2e) negotiation(textFams string) (om, omdup, pb, pbsame int) {
+	get := func(accept string) (*http.Response, error) {
+		req, _ := http.NewRequest("GET", "http://"+e.web+"/metrics", nil)
+		req.Header.Set("Accept", accept)
+		c := http.Client{Timeout: 10 * time.Second}
+		return c.Do(req)
+	}
+	if resp, err := get("application/openmetrics-text;version=1.0.0,application/openmetrics-text;version=0.0.1;q=0.75,text/plain;version=0.0.4;q=0.5,*/*;q=0.1"); err == nil {
+		body, _ := io.ReadAll(resp.Body)
+		resp.Body.Close()
+		if strings.Contains(resp.Header.Get("Content-Type"), "openmetrics") {
+			om = 1
+			seen := map[string]bool{}
+			for _, ln := range strings.Split(string(body), "\n") {
+				key := ""
+				switch {
+				case strings.HasPrefix(ln, "# TYPE "), strings.HasPrefix(ln, "# HELP "):
+					f := strings.Fields(ln)
+					if len(f) >= 3 {
+						if builtinFamily(f[2]) {
+							continue
+						}
+						key = f[1] + " " + f[2]
+					}
+				case ln == "" || strings.HasPrefix(ln, "#"):
+					continue
+				default:
+					if i := strings.LastIndex(ln, "}"); i >= 0 {
+						key = ln[:i+1]
+					} else if i := strings.Index(ln, " "); i >= 0 {
+						key = ln[:i]
+					}
+					if builtinFamily(key) {
+						continue
+					}
+				}
+				if key != "" && seen[key] {
+					omdup++
+				}
+				seen[key] = true
+			}
+		}
+	}
+	if resp, err := get("application/vnd.google.protobuf;proto=io.prometheus.client.MetricFamily;encoding=delimited"); err == nil {
+		defer resp.Body.Close()
+		if strings.Contains(resp.Header.Get("Content-Type"), "protobuf") {
+			pb = 1
+			dec := expfmt.NewDecoder(resp.Body, expfmt.NewFormat(expfmt.TypeProtoDelim))
+			var list []*dto.MetricFamily
+			for {
+				mf := &dto.MetricFamily{}
+				if err := dec.Decode(mf); err != nil {
+					break
+				}
+				list = append(list, mf)
+			}
+			sort.Slice(list, func(i, j int) bool { return list[i].GetName() < list[j].GetName() })
+			if formatFamilies(list, builtinFamily, "1") == textFams {
+				pbsame = 1
+			}
+		}
+	}
+	return
+}
+
 func famValue(mfs map[string]*dto.MetricFamily, name string) float64 {
 	mf := mfs[name]
 	t := 0.0
@@ -146,7 +216,17 @@ func (e *e2e) start(flags int, cache string, size int, cfg string, hasCfg bool) 
 	}
 	// the mapping file is reached through a symbolic link that every reload re-points (the ConfigMap / release-directory pattern)
 	e.cfgPath = filepath.Join(e.dir, "mapping.yml")
-	args := []string{"--log.level=error", "--web.enable-lifecycle", "--statsd.event-flush-interval=5ms", "--statsd.event-flush-threshold=7"}
+	lvl := "error"
+	var extra []string
+	for _, a := range e.extraArgs {
+		if a == "--log.level=debug" {
+			lvl = "debug"
+		} else {
+			extra = append(extra, a)
+		}
+	}
+	e.extraArgs = extra
+	args := []string{"--log.level=" + lvl, "--web.enable-lifecycle", "--statsd.event-flush-interval=5ms", "--statsd.event-flush-threshold=7"}
 	if hasCfg {
 		e.writeConfig(cfg)
 		args = append(args, "--statsd.mapping-config="+e.cfgPath)
@@ -187,6 +267,10 @@ func (e *e2e) start(flags int, cache string, size int, cfg string, hasCfg bool) 
 			// the listener on the wildcard address, as with the default flags (dual stack); the sender comes in over IPv6
 			e.udpAddr = fmt.Sprintf("[::1]:%d", sp)
 			a = append(a, fmt.Sprintf("--statsd.listen-udp=:%d", sp), "--statsd.listen-tcp=")
+		case "unixgram@":
+			// a socket in the abstract namespace (Linux): no file, nothing to chmod or remove
+			e.unixPath = fmt.Sprintf("@verif_e2e_%d_%d", os.Getpid(), sp)
+			a = append(a, "--statsd.listen-unixgram="+e.unixPath, "--statsd.listen-udp=", "--statsd.listen-tcp=")
 		default:
 			e.unixPath = filepath.Join(e.dir, "statsd.sock")
 			os.Remove(e.unixPath)
@@ -384,7 +468,10 @@ func (e *e2e) gather() string {
 		famDump(mfs, "statsd_exporter_sample_errors_total"), int(famValue(mfs, "statsd_exporter_lines_total")),
 		int(famValue(mfs, "statsd_exporter_loaded_mappings")), reloadCount(mfs, "success"), reloadCount(mfs, "failure"),
 		int(famValue(mfs, "statsd_exporter_tcp_connections_total")), int(famValue(mfs, "statsd_exporter_udp_packets_total")), int(famValue(mfs, "statsd_exporter_unixgram_packets_total")))
-	return formatFamilies(list, builtinFamily, "1") + " " + tel + " " + wiring
+	fams := formatFamilies(list, builtinFamily, "1")
+	om, omdup, pb, pbsame := e.negotiation(fams)
+	wiring += fmt.Sprintf(" neg_om=%d omdup=%d neg_pb=%d pbsame=%d", om, omdup, pb, pbsame)
+	return fams + " " + tel + " " + wiring
 }
 
 func reloadCount(mfs map[string]*dto.MetricFamily, outcome string) int {
@@ -453,6 +540,10 @@ func e2eCase(c string, settle time.Duration) string {
 	}
 	sighup := len(hdr) > 4 && strings.Contains(hdr[4], "sighup")
 	e := &e2e{transport: transport, settle: settle, inplace: len(hdr) > 4 && strings.Contains(hdr[4], "inplace")}
+	if len(hdr) > 4 && strings.Contains(hdr[4], "debuglog") {
+		// who listens to the log must not change what the exporter does
+		e.extraArgs = append(e.extraArgs, "--log.level=debug")
+	}
 	defer e.stop()
 	var results []string
 	started := false
@@ -527,6 +618,45 @@ func lastLines(s string, n int) string {
 }
 
 // check-config mode: "K <yaml hex>" -> "K ok" / "K err"
+// "KB <MiB> <0|1>": --check-config on a mapping file of that many MiB (one good rule, comment lines, then a last rule that is
+// valid (0) or uses an unknown observer type (1)): the verdict is about the WHOLE file
+func checkBigConfig(c string) string {
+	f := strings.Fields(c)
+	mib, _ := strconv.Atoi(f[1])
+	dir, err := os.MkdirTemp("", "e2ebig")
+	if err != nil {
+		return "KB fail " + err.Error()
+	}
+	defer os.RemoveAll(dir)
+	p := filepath.Join(dir, "big.yml")
+	fh, err := os.Create(p)
+	if err != nil {
+		return "KB fail " + err.Error()
+	}
+	w := bufio.NewWriterSize(fh, 1<<20)
+	w.WriteString("mappings:\n- match: \"good.*\"\n  name: \"good\"\n")
+	line := "# " + strings.Repeat("padding ", 127) + "\n"
+	for n := 0; n < mib<<20; n += len(line) {
+		w.WriteString(line)
+	}
+	if f[2] == "1" {
+		w.WriteString("- match: \"bad.*\"\n  name: \"bad\"\n  observer_type: nonsense\n")
+	} else {
+		w.WriteString("- match: \"fine.*\"\n  name: \"fine\"\n")
+	}
+	w.Flush()
+	fh.Close()
+	cmd := exec.Command(os.Getenv("VERIF_BIN"), "--check-config", "--log.level=error", "--statsd.mapping-config="+p)
+	code := 0
+	if err := cmd.Run(); err != nil {
+		code = 1
+		if ee, ok := err.(*exec.ExitError); ok {
+			code = ee.ExitCode()
+		}
+	}
+	return fmt.Sprintf("KB exit=%d", code)
+}
+
 func checkConfig(yaml string) string {
 	dir, err := os.MkdirTemp("", "e2ek")
 	if err != nil {
@@ -876,7 +1006,9 @@ func engineE2E(cases string) {
 		sem <- struct{}{}
 		go func(i int, c string) {
 			defer func() { <-sem; done <- i }()
-			if strings.HasPrefix(c, "K ") {
+			if strings.HasPrefix(c, "KB ") {
+				res[i] = checkBigConfig(c)
+			} else if strings.HasPrefix(c, "K ") {
 				res[i] = checkConfig(unhex(strings.Fields(c)[1]))
 			} else if strings.HasPrefix(c, "B ") {
 				res[i] = burstCase(c)
